@@ -90,6 +90,8 @@ type loopInfo struct {
 	hdrState   *State
 	kTerm      string // _k at header (after havoc)
 	mapIter    *ssa.Range
+	entryPhis  map[*ssa.Phi]string
+	entryState *State
 }
 
 type VC struct {
@@ -969,10 +971,13 @@ func (vc *VC) enterLoop(lp *loopInfo, b *ssa.BasicBlock, st *State, edges []inEd
 			phis = append(phis, ph)
 		}
 	}
+	lp.entryPhis = map[*ssa.Phi]string{}
 	for _, ph := range phis {
 		vc.phiOverride[ph] = vc.define(ph.Name()+".entry", vc.d.sortOf(ph.Type()), vc.phiTerm(ph, edges))
+		lp.entryPhis[ph] = vc.phiOverride[ph]
 	}
 	lp.entryAlloc = vc.define("alloc.entry", "Int", st.alloc)
+	lp.entryState = st.clone()
 	lp.hdrState = st
 	lp.kTerm = ""
 	env := &Env{vc: vc, cur: st, old: vc.entry, vars: map[string]SVal{}, loop: lp, atHeader: true, block: b}
